@@ -173,6 +173,19 @@ CLAIMED['C12'] = dict(
        'retransmit-after-R(ACK) path passes no retry counter. Assume/guarantee: clf.exchange in reader mode raises Timeout/Transmission/'
        'ProtocolError or IOError (C13).',
   technique='CFG dominance + handler-map agreement + exception-escape analysis + loop-cycle counter test (ast)')
+CLAIMED['C18'] = dict(
+  category='other',
+  text='Decides the control-flow contract of connect()/sense()/exchange() on the CFG: on-startup only before the discovery loop; in every '
+       'helper on-discover precedes activation precedes on-connect precedes on-release, on-release reachable only through the true branch of '
+       'on-connect, and after a true on-connect every normal path passes on-release exactly once; the documented return values (None, False in '
+       'the three handlers, the object on a false on-connect, a result only if true); terminate() polled by every waiting loop; sense() '
+       're-raises UnsupportedTargetError only for a single target, returns the first found target from inside the in-order loop and passes '
+       'mute() on every miss; the captured target is cleared before any driver call and written nowhere else; exchange() dispatches on the '
+       'class of the captured target. Behaviour against live counterparts and timing are not decided.',
+  design_ref='DESIGN.md section 3 C18',
+  note='Callbacks are opaque. Exceptional exits (host-link faults) are outside this property. The connect() documentation does not define the '
+       'return value after on-release; the rule records that the default callbacks return True.',
+  technique='callback typestate by CFG dominance / must-pass-through (ast)')
 NA_REASON = {}
 def main():
     checks = []
